@@ -480,7 +480,26 @@ fn gen(seed: u64, index: u64) -> Scn {
     let mut client = *r.pick(&[0usize, 0, 0, 0, 0, 0, 1, 2, 3, 4, 6]);
     let id = r.next() as u16;
     let mut t = T0 + r.below(1000);
-    let msg = base_message(&mut r, axfr, id);
+    let mut msg = base_message(&mut r, axfr, id);
+    // header flags a client may set on a request: RD and/or CD (3 of 8 ids), occasionally AD; the reply the
+    // catalog sends and the copy it signs must agree on what they do with them
+    match id % 8 {
+        1 => msg.metadata.recursion_desired = true,
+        2 => msg.metadata.checking_disabled = true,
+        3 => {
+            msg.metadata.recursion_desired = true;
+            msg.metadata.checking_disabled = true;
+        }
+        4 => msg.metadata.authentic_data = true,
+        _ => {}
+    }
+    let flags_kind = match id % 8 {
+        1 => "+RD",
+        2 => "+CD",
+        3 => "+RD+CD",
+        4 => "+AD",
+        _ => "",
+    };
     let mut u = msg.to_vec().expect("encode");
     let mk = r.below(40);
     let mut kind;
@@ -775,6 +794,7 @@ fn gen(seed: u64, index: u64) -> Scn {
         kind.push_str("+clock-edge");
     }
     let now = (ft as i64 + off).max(0) as u64;
+    kind.push_str(flags_kind);
     Scn { kind, axfr, cfg, client, t, now, req, sig, ft, ff, msg, force_fam: None }
 }
 
